@@ -320,7 +320,7 @@ func runReviewed(c *core.Check) {
 		// text that becomes a character reference when a comment between its parts is dropped
 		{"body", "<p>a &amp;<!---->lt; b</p>"}, {"body", "<p>a &<!---->amp; b</p>"}, {"body", "<p>a &am<!--x-->p; b</p>"}, {"body", "<p title=\"&amp;lt;\">a</p>"},
 		// text that becomes a character reference when the reference behind an ampersand is decoded
-		{"body", "<p>a &amp;&num;60; b</p>"}, {"body", "<p>&amp;&#108;t; b</p>"}, {"body", "<p>&amp;&#35;60;</p>"}, {"body", "<p title=\"&amp;&num;60;\">a</p>"}, {"body", "<p>&&num;60;</p>"}, {"body", "<p>&amp;&lpar;&amp;&semi;&amp;l&#116;;</p>"}, {"body", "<p>&amp;cop&#121; b</p>"},
+		{"body", "<p>a &amp;&num;60; b</p>"}, {"body", "<p>&amp;&#108;t; b</p>"}, {"body", "<p>&amp;&#35;60;</p>"}, {"body", "<p title=\"&amp;&num;60;\">a</p>"}, {"body", "<p>&&num;60;</p>"}, {"body", "<p>&amp;&lpar;&amp;&semi;&amp;l&#116;;</p>"}, {"body", "<p>&amp;cop&#121; b</p>"}, {"body", "<p>&&num;xa</p>"}, {"body", "<p>a&amp;&num;x20;b</p>"}, {"document", "<!doctype html><title>&&num;1;</title><p>b"}, {"document", "<!doctype html><title>&&num;xa</title><p>b"}, {"body", "<textarea>&amp;&num;60;</textarea>"},
 		// raw text elements with attributes of frameworks
 		{"document", "<!doctype html><html><head><title>t</title><style amp-boilerplate>a{content:\"&amp;   x\"}</style></head><body><p>x</p></body></html>"}, {"document", "<!doctype html><html><head><title>t</title><style amp-custom>a{content:\"&lt;  x\"}</style></head><body><p>x</p></body></html>"},
 		// the start tag of body before elements that would otherwise go to head
